@@ -359,4 +359,15 @@ def build_and_audit(ctx, prop_mod, other_mods=(), audit_extra=()):
     if ctx.audit["problems"] or len(ctx.audit["discharged"]) != len(ctx.audit["theorems"]):
         ctx.broken += ctx.audit["problems"] or ["audit: not all theorems discharged"]
         return False
+    if ctx.tier == "thorough":
+        # independent re-check of the compiled modules of this property (project-local import closure) by leanchecker
+        mods = import_closure(prop_mod)
+        try:
+            p = subprocess.run(["lake", "env", "leanchecker"] + mods, cwd=LEAN, capture_output=True, text=True, timeout=3000)
+        except subprocess.TimeoutExpired:
+            raise Infra("leanchecker timed out")
+        ctx.extra["leanchecker"] = {"modules": len(mods), "exit": p.returncode, "output": (p.stdout + p.stderr)[-300:]}
+        if p.returncode != 0:
+            ctx.broken.append("leanchecker rejected the compiled modules: " + (p.stdout + p.stderr)[-300:])
+            return False
     return True
